@@ -71,6 +71,9 @@ def make_var(d):
     raise ValueError(kind)
 
 
+STR_LITERALS = [False]  # set by a check around one compilation
+
+
 class Builder:
     def __init__(self, recipe):
         self.r = recipe
@@ -125,7 +128,16 @@ class Builder:
         return pt.Int(e[1])
 
     def e_bytes(self, e, sc):
-        return pt.Bytes(bytes.fromhex(e[1]))
+        raw = bytes.fromhex(e[1])
+        if STR_LITERALS[0]:
+            # the same constant written as a Python str literal (printable text only: escaping is C13's subject)
+            try:
+                text = raw.decode("utf-8")
+            except UnicodeDecodeError:
+                text = None
+            if text is not None and text and all(ch.isprintable() and ch not in '"\\' for ch in text):
+                return pt.Bytes(text)
+        return pt.Bytes(raw)
 
     def e_bin(self, e, sc):
         return BINOPS[e[1]](self.ex(e[2], sc), self.ex(e[3], sc))
